@@ -114,6 +114,8 @@ def run(R, tier, seed, driver_ok):
                 B = rng.randn(d0, d0); params['init'] = B.dot(B.T) + np.eye(d0)
             if name in ('LMNN', 'NCA', 'MLKR') and h % 2 == 1:
                 params['init'] = rng.randn(d0, d0)
+            if name == 'LFDA' and h % 2 == 1:
+                params['k'] = d0 + 3                      # an explicit neighbour count above the dimensionality (clamped when used)
             if name.startswith('SCML') and h % 2 == 1:
                 Bs = rng.randn(3 * d0, d0); params['basis'] = Bs / np.linalg.norm(Bs, axis=1, keepdims=True); params['n_basis'] = 3 * d0
             fixed_dim = any(isinstance(v, np.ndarray) for v in params.values())
